@@ -561,6 +561,7 @@ class SessionEngine(Engine):
         "stub": ["tty + termios list", "resize socket pair", "os.pipe for watch_pipe", "selectors/poller/asyncio step/trio fd wait", "clock", "terminal (RefTerm)"],
     }
     required_probes = ("restoration_checked", "order_checked", "redraw_checked_at_wait", "block_with_resize_pending")
+    selftest_n = 240
     reducible = ("events",)
 
     def generate(self, rng: random.Random, tier: str) -> dict:
